@@ -43,7 +43,9 @@ CHECK_SETS = [["not_a_server_error"], ["not_a_server_error", "content_type_confo
 @st.composite
 def fault_case(draw):
     n = draw(st.integers(1, 4))
-    ops = [{"path": f"/r{i}", "behaviour": draw(st.sampled_from(BEHAVIOURS))} for i in range(n)]
+    # `with_example`: only such operations are exercised by the examples phase (the others are reported as skipped there);
+    # `plain`: the only input is an unconstrained string, which negative mode cannot violate (skipped there)
+    ops = [{"path": f"/r{i}", "behaviour": draw(st.sampled_from(BEHAVIOURS)), "with_example": draw(st.booleans()), "plain": draw(st.integers(0, 3)) == 0} for i in range(n)]
     fault = draw(st.sampled_from(FAULTS))
     return {
         "ops": ops,
@@ -51,13 +53,13 @@ def fault_case(draw):
         "fault": fault,
         "fault_op": draw(st.integers(0, n - 1)),
         "fault_k": draw(st.integers(1, 12)),
-        "phases": draw(st.sampled_from([["examples", "coverage", "fuzzing", "stateful"], ["fuzzing"], ["coverage"], ["coverage", "fuzzing"], ["fuzzing", "stateful"]])),
+        "phases": draw(st.sampled_from([["examples", "coverage", "fuzzing", "stateful"], ["fuzzing"], ["coverage"], ["coverage", "fuzzing"], ["fuzzing", "stateful"], ["examples"], ["examples"], ["examples", "stateful"]])),
         "checks": draw(st.sampled_from(CHECK_SETS)),
         "workers": draw(st.sampled_from([1, 1, 2, 4])),
         "continue_on_failure": draw(st.booleans()),
         "max_failures": draw(st.sampled_from([None, None, None, 2])),
         "unique_inputs": draw(st.booleans()),
-        "mode": draw(st.sampled_from(["positive", "all"])),
+        "mode": draw(st.sampled_from(["positive", "all", "negative"])),
         "seed": draw(st.integers(0, 1000)),
     }
 
@@ -65,7 +67,9 @@ def fault_case(draw):
 def build_doc(inp) -> dict:
     paths = {}
     for i, op in enumerate(inp["ops"]):
-        q = {"name": "q", "in": "query", "schema": {"type": "integer"}}
+        q = {"name": "q", "in": "query", "schema": {"type": "string"} if op.get("plain") else {"type": "integer"}}
+        if op.get("with_example"):
+            q["example"] = "two" if op.get("plain") else 2
         paths[op["path"]] = {"get": {"parameters": [q], "responses": {"200": {"description": "ok", "content": {"application/json": {"schema": {"type": "object", "properties": {"id": {"type": "integer"}}, "required": ["id"]}}}},
                                                                               "500": {"description": "documented error", "content": {"application/json": {"schema": {"type": "object"}}}}}}}
         if inp["fault"] == "binary-example" and i == inp["fault_op"]:
@@ -307,7 +311,8 @@ def check_faults(ctx: Ctx, inp) -> None:
             for op in inp["ops"]:
                 if per_op_requests[op["path"]] == 0:
                     ctx.disagree("exit-code-0-but-an-operation-was-never-tested", f"GET {op['path']} received no request in {unit} and the run exited 0: {output[-300:]}", input=inp)
-        if "Empty test suite" in output or "No tests" in output:
+        # with only the examples / stateful phases enabled and nothing for them to do, every phase is shown as skipped: that is explicit
+        if unit and ("Empty test suite" in output or "No tests" in output):
             ctx.disagree("exit-code-0-with-an-empty-test-suite", f"{output[-300:]}", input=inp)
     if code not in (0, 1) and not (code == -1 and fault == "handler-raises" and "INJECTED-FAULT" in output):
         # (a raising custom handler ends the process with its traceback: visible and non-zero)
@@ -336,10 +341,54 @@ def _titles_in(block: str):
     return [t for t in TITLES.values() if t in block]
 
 
+def check_attribution(ctx: Ctx, inp) -> None:
+    """'The failure is recorded with the request that caused it': in every reported scenario a failed check result hangs
+    on the case whose request the failure names (checks that send requests of their own - ignored_auth, use_after_free,
+    ensure_resource_availability - name the derived case), and that case's recorded interaction is the request the API
+    received under that case id."""
+    from vfw.props import c09
+
+    record, server = c09.engine_record(inp)
+    if record.exception:
+        ctx.case(classes=["engine-exception"])
+        ctx.disagree("attribution:engine-exception:" + record.exception.split(":")[0], f"engine run raised {record.exception}", input=inp)
+        return
+    received = {}
+    for req in record.requests:
+        received.setdefault(req.header("X-Schemathesis-TestCaseId"), req)
+    failures = 0
+    for e in record.of_type("ScenarioFinished"):
+        rec = e["recorder"]
+        for cid, nodes in rec["checks"].items():
+            for node in nodes:
+                if node["status"] != "FAILURE":
+                    continue
+                failures += 1
+                derived = node["failure_case_id"] is not None and rec["cases"].get(node["failure_case_id"], {}).get("parent_id") is not None and rec["cases"][node["failure_case_id"]]["transition"] is None
+                ctx.case(nontrivial=[inp, e["label"], node["name"], cid], classes=[f"check={node['name']}", "failure-of-a-derived-request" if derived else "failure-of-the-main-request"], sample={"config": inp, "scenario": e["label"], "check": node["name"], "case": cid, "failure_case": node["failure_case_id"]})
+                if node["failure_case_id"] is not None and node["failure_case_id"] != cid:
+                    ctx.disagree("attribution:failure-recorded-on-another-case", f"{node['name']} failure names case {node['failure_case_id']} but is recorded under case {cid} ({e['label']}, {e['phase']})", input=inp)
+                    continue
+                inter = rec["interactions"].get(cid)
+                req = received.get(cid)
+                if inter is None:
+                    ctx.disagree("attribution:failed-check-without-a-recorded-request", f"{node['name']} failed for case {cid} but the scenario has no interaction for it", input=inp)
+                elif req is not None and (inter["method"] != req.method or not inter["uri"].endswith(req.target)):
+                    ctx.disagree("attribution:recorded-request-differs-from-the-one-received", f"case {cid}: recorded {inter['method']} {inter['uri']}, received {req.method} {req.target}", input=inp)
+    ctx.classes["attribution:runs-with-failures" if failures else "attribution:runs-without-failures"] += 1
+
+
+def attribution_case():
+    from vfw.props import c09
+
+    return c09.engine_case()
+
+
 SUBS = [
+    Sub("attribution", collect=True, fn=check_attribution, strategy=attribution_case, quick=(8, 8), thorough=(16, 200), shrink_quick=False, timeout_quick=600, timeout_thorough=3400),
     Sub("faults", collect=True, fn=check_faults, strategy=fault_case, quick=(16, 14), thorough=(16, 500), shrink_quick=False, timeout_quick=600, timeout_thorough=3400),
 ]
-FLOOR = {"faults": 150}
+FLOOR = {"faults": 150, "attribution": 30}
 
 MANIFEST = {
     "category": "fault_enumeration",
